@@ -20,7 +20,7 @@ SAN    ?= -fsanitize=address,undefined \
 CXXSTD := -std=gnu++17
 OPT    ?= -O1
 CXXFLAGS_COMMON := $(CXXSTD) $(OPT) -g -DNDEBUG -D$(GUARD) -fno-omit-frame-pointer \
-                   -Wno-error -w $(SAN) -I$(REPO)/lib -I/verif
+                   -Wno-error -w $(SAN) -I$(REPO)/lib -I$(CURDIR)
 LDFLAGS_COMMON  := $(SAN)
 EXPAT  := /usr/lib/x86_64-linux-gnu/libexpat.a
 
